@@ -362,3 +362,62 @@ fn c07_unblock_unaligned_dead_record_read_resumes_on_record_grid() {
     assert!(h1 == head + 16, "C07: after unblock the read steps over the whole (aligned) dead claim and stops at the producer position");
     assert!(log.n == 0, "C07: padding is never handed out as a command");
 }
+
+// ------------------------------------------------------------------------------------------------------------------
+// h.  unblock racing a SLOW (not dead) producer: the claim at the consumer index is committed while unblock scans
+// ------------------------------------------------------------------------------------------------------------------
+// Producer A has claimed [0,16) (CAS on the tail done, nothing written: the whole claim is zero) and a surviving
+// producer's committed record lies behind it at [16,32).  `unblock` is preempted just before its j-th shared-memory
+// access (hook interference, j solver-chosen and case-split into literal arms) by the REST of A's write: type word,
+// 4 payload bytes (symbolic - the solver picks the value a weak re-validation cannot tell from untouched space, e.g. 0),
+// then the positive length word.  For every j after unblock's first look at the dead claim and before its backward
+// re-validation starts (accesses 3..=5 of head, tail, length@0, length@8, length@16, back@8, back@0, header store),
+// A's commit precedes the last re-validating read of the length word at the consumer index, so unblock must notice it:
+// it reports failure and A's committed record is not turned into padding; both commands are then delivered once.
+// (A commit that lands between the re-validation and the header store is the time-of-check race the protocol
+// accepts - unblock is only called after a timeout - and is outside this obligation.)
+fn env_a_commits_late() {
+    let w = world();
+    w.b_ran = true;
+    let m = ring_mem();
+    m.set_i32(4, CMD_A as i32);
+    m.set_i32(8, i32::from_le_bytes([w.b_src.0[0], w.b_src.0[1], w.b_src.0[2], w.b_src.0[3]]));
+    m.set_i32(0, 12);
+}
+
+fn unblock_vs_late_commit(j: u32, seen: &mut bool) {
+    let m = ring_mem();
+    let (head, tail) = (B1, B1 + 32);
+    set_positions(m, head, tail, head);
+    let surv = put_survivor(m, 16, 3, TYPES[0]);
+    let w = world();
+    w.b_src = Mem::<8>::any();
+    w.b_src.0[4] = 0;
+    w.b_src.0[5] = 0;
+    w.b_src.0[6] = 0;
+    w.b_src.0[7] = 0;
+    w.b_ran = false;
+    let a = Cmd { id: CMD_A as i32, len: 4, bytes: w.b_src.0 };
+    let rb = ring();
+    hook::begin(u32::MAX, j, Some(env_a_commits_late as fn()), false);
+    let u = rb.unblock();
+    let _ = hook::end();
+    assert!(w.b_ran, "C07: harness instance: the late commit was injected inside unblock");
+    assert!(!u, "C07: unblock reported success although the claim at the consumer index was committed before unblock re-validated it");
+    assert!(m.i32_at(0) == 12 && m.i32_at(4) == CMD_A as i32, "C07: unblock turned a record into padding that its producer had committed before the re-validation (a committed command is hidden)");
+    assert!(m.i64_at(HEAD_AT) == head && m.i64_at(TAIL_AT) == tail, "C07: unblock moves neither position");
+    let mut log = EMPTY_LOG;
+    drain(&rb, &mut log);
+    assert!(!log.overflow && log.n == 2, "C07: both committed commands are handed out exactly once");
+    assert!(delivered_is(&log, 0, &a) && delivered_is(&log, 1, &surv), "C07: the late committer's command and the survivor's come out intact, in order");
+    *seen = true;
+}
+
+// @verif tier=quick fs=801 unwind=4 unwindset=RingBuffer4read:6,set_memory:33,unblock:100,scan_back:100
+#[kani::proof]
+fn c07_unblock_races_slow_producer_commit() {
+    let mut seen = false;
+    let j: u32 = kani::any();
+    split!(j, |v| unblock_vs_late_commit(v, &mut seen), 3, 4, 5);
+    kani::cover!(seen, "[must] a commit landed inside unblock before its re-validation");
+}
